@@ -11,6 +11,8 @@ use std::sync::{Arc, Mutex};
 use iceoryx2::prelude::*;
 use iceoryx2::service::builder::publish_subscribe::{PublishSubscribeCreateError, PublishSubscribeOpenError, PublishSubscribeOpenOrCreateError};
 use iceoryx2::service::builder::event::{EventCreateError, EventOpenError, EventOpenOrCreateError};
+use iceoryx2::service::builder::request_response::{RequestResponseCreateError, RequestResponseOpenError, RequestResponseOpenOrCreateError};
+use iceoryx2::service::builder::blackboard::{BlackboardCreateError, BlackboardOpenError};
 use iceoryx2::service::Service as ServiceTrait;
 use ixmc::{pb, Case};
 
@@ -33,6 +35,9 @@ enum Call {
 enum Pattern {
     PubSub,
     Event,
+    ReqRes,
+    /// creator / opener only: the programs with open_or_create are skipped
+    Blackboard,
 }
 
 #[derive(Clone, Debug, PartialEq, Eq, Hash)]
@@ -56,6 +61,8 @@ fn config() -> Config {
 enum Handle {
     P(iceoryx2::service::port_factory::publish_subscribe::PortFactory<Svc, u64, ()>),
     E(iceoryx2::service::port_factory::event::PortFactory<Svc>),
+    R(iceoryx2::service::port_factory::request_response::PortFactory<Svc, u64, (), u64, ()>),
+    B(iceoryx2::service::port_factory::blackboard::PortFactory<Svc, u64>),
 }
 
 impl Handle {
@@ -63,6 +70,8 @@ impl Handle {
         match self {
             Handle::P(h) => h.static_config().max_subscribers(),
             Handle::E(h) => h.static_config().max_listeners(),
+            Handle::R(h) => h.static_config().max_clients(),
+            Handle::B(h) => h.static_config().max_readers(),
         }
     }
 }
@@ -82,6 +91,28 @@ fn documented_ev_open(e: &EventOpenError) -> bool {
 fn documented_ev_create(e: &EventCreateError) -> bool {
     use EventCreateError::*;
     matches!(e, AlreadyExists | IsBeingCreatedByAnotherInstance)
+}
+
+fn documented_rr_open(e: &RequestResponseOpenError) -> bool {
+    use RequestResponseOpenError::*;
+    matches!(e, DoesNotExist | IsMarkedForDestruction | HangsInCreation)
+}
+fn documented_rr_create(e: &RequestResponseCreateError) -> bool {
+    use RequestResponseCreateError::*;
+    matches!(e, AlreadyExists | IsBeingCreatedByAnotherInstance | HangsInCreation)
+}
+fn documented_bb_open(e: &BlackboardOpenError) -> bool {
+    use BlackboardOpenError::*;
+    // ServiceInCorruptedState: the blackboard's payload segments are created after the static config
+    // is finalised; an opener in between finds them "missing", which is what the variant documents
+    if matches!(e, ServiceInCorruptedState) {
+        ixmc::note("blackboard-open-saw-missing-resources");
+    }
+    matches!(e, DoesNotExist | IsMarkedForDestruction | HangsInCreation | ServiceInCorruptedState)
+}
+fn documented_bb_create(e: &BlackboardCreateError) -> bool {
+    use BlackboardCreateError::*;
+    matches!(e, AlreadyExists | IsBeingCreatedByAnotherInstance | HangsInCreation)
 }
 
 /// returns (handle or error text, was it a creation, documented error?)
@@ -114,6 +145,43 @@ fn perform(node: &Node<Svc>, name: &ServiceName, pattern: Pattern, call: Call) -
                 },
             }
         }
+        Pattern::ReqRes => {
+            let b = || node.service_builder(name).request_response::<u64, u64>();
+            match call {
+                Call::Create(v) | Call::CreateDrop(v) => match b().max_clients(setting(v)).create() {
+                    Ok(h) => (Ok(Handle::R(h)), true, true),
+                    Err(e) => (Err(format!("{e:?}")), false, documented_rr_create(&e)),
+                },
+                Call::Open | Call::OpenDrop => match b().open() {
+                    Ok(h) => (Ok(Handle::R(h)), false, true),
+                    Err(e) => (Err(format!("{e:?}")), false, documented_rr_open(&e)),
+                },
+                Call::OpenOrCreate(v) => match b().max_clients(setting(v)).open_or_create() {
+                    Ok(h) => (Ok(Handle::R(h)), false, true),
+                    Err(e) => {
+                        let ok = match &e {
+                            RequestResponseOpenOrCreateError::RequestResponseOpenError(o) => {
+                                documented_rr_open(o) || matches!(o, RequestResponseOpenError::DoesNotSupportRequestedAmountOfClients)
+                            }
+                            RequestResponseOpenOrCreateError::RequestResponseCreateError(c) => documented_rr_create(c),
+                            RequestResponseOpenOrCreateError::SystemInFlux => true,
+                        };
+                        (Err(format!("{e:?}")), false, ok)
+                    }
+                },
+            }
+        }
+        Pattern::Blackboard => match call {
+            Call::Create(v) | Call::CreateDrop(v) => match node.service_builder(name).blackboard_creator::<u64>().add::<u64>(0, 0).max_readers(setting(v)).create() {
+                Ok(h) => (Ok(Handle::B(h)), true, true),
+                Err(e) => (Err(format!("{e:?}")), false, documented_bb_create(&e)),
+            },
+            Call::Open | Call::OpenDrop => match node.service_builder(name).blackboard_opener::<u64>().open() {
+                Ok(h) => (Ok(Handle::B(h)), false, true),
+                Err(e) => (Err(format!("{e:?}")), false, documented_bb_open(&e)),
+            },
+            Call::OpenOrCreate(_) => unreachable!("blackboard has no open_or_create"),
+        },
         Pattern::Event => {
             let b = || node.service_builder(name).event();
             match call {
@@ -149,6 +217,8 @@ fn body(pattern: Pattern, calls: Vec<Call>) -> impl Fn() + Send + Sync + 'static
         let mp = match pattern {
             Pattern::PubSub => MessagingPattern::PublishSubscribe,
             Pattern::Event => MessagingPattern::Event,
+            Pattern::ReqRes => MessagingPattern::RequestResponse,
+            Pattern::Blackboard => MessagingPattern::Blackboard,
         };
         // one node per thread, created in the setup phase
         let nodes: Vec<Node<Svc>> = calls.iter().map(|_| NodeBuilder::new().config(&cfg).create::<Svc>().expect("node")).collect();
@@ -238,8 +308,11 @@ fn main() {
         ("createdrop+ooc", vec![CreateDrop(0), OpenOrCreate(1)], vec![]),
         ("create+opendrop+open", vec![Create(0), OpenDrop, Open], vec![]),
     ];
-    for (pname, pattern) in [("pubsub", Pattern::PubSub), ("event", Pattern::Event)] {
+    for (pname, pattern) in [("pubsub", Pattern::PubSub), ("event", Pattern::Event), ("reqres", Pattern::ReqRes), ("blackboard", Pattern::Blackboard)] {
         for (n, calls, req) in &progs {
+            if pattern == Pattern::Blackboard && calls.iter().any(|c| matches!(c, OpenOrCreate(_))) {
+                continue;
+            }
             let three = calls.len() > 2;
             cases.push(Case {
                 name: format!("{pname}/{n}"),
